@@ -80,8 +80,9 @@ type SpecFn struct {
 }
 
 type GhostVar struct {
-	Name string
-	Type string
+	Name  string
+	Type  string
+	Field bool
 }
 
 type Specs struct {
@@ -151,6 +152,10 @@ func (sp *Specs) LoadFile(path, defaultPkg string) error {
 			cur = nil
 			n, t := splitWord(rest)
 			sp.Ghosts[n] = &GhostVar{Name: n, Type: strings.TrimSpace(t)}
+		case "ghostfield":
+			cur = nil
+			n, t := splitWord(rest)
+			sp.Ghosts["."+n] = &GhostVar{Name: n, Type: strings.TrimSpace(t), Field: true}
 		default:
 			if cur == nil {
 				return fail(fmt.Errorf("directive %q outside a func block", word))
